@@ -75,16 +75,20 @@ mutual
 /-- `gocty.FromCtyValue v &target` for a target of type `t`; `none` = an error (a diagnostic) -/
 def fromCty : GTy → Val → Option GVal
   | .str, .str _ s => some (.str s)
-  | .int, .num _ q => if q.den = 1 then some (.int q.num) else none
+  -- `fromCtyNumberInt`: the number must be an integer in the range of the target (`int` = int64)
+  | .int, .num _ q =>
+    if q.den = 1 ∧ -9223372036854775808 ≤ q.num ∧ q.num ≤ 9223372036854775807 then some (.int q.num) else none
   | .bool, .bool _ b => some (.bool b)
   | .slice _, .null _ _ => some (.slice none)
   | .slice t, .list _ _ xs => (fromCtyList t xs).map fun vs => .slice (some vs)
   | .map _, .null _ _ => some (.map none)
   | .map t, .map _ _ kvs => (fromCtyFields t kvs).map fun vs => .map (some vs)
-  -- a null of list / map type does not reset the pointer: gocty allocates it and stores the nil collection
-  | .ptr (.slice t), v => (fromCty (.slice t) v).map fun g => .ptr (some g)
-  | .ptr (.map t), v => (fromCty (.map t) v).map fun g => .ptr (some g)
-  | .ptr _, .null _ _ => some (.ptr none)
+  -- a null resets only the LAST pointer level, and only when what it points to is not a list / map
+  -- (`fromCtyPopulatePtr`): null into `*string` is the nil pointer, into `**string` a pointer to a nil pointer,
+  -- into `*[]T` / `*map[string]T` a pointer to the nil collection
+  | .ptr .str, .null _ _ => some (.ptr none)
+  | .ptr .int, .null _ _ => some (.ptr none)
+  | .ptr .bool, .null _ _ => some (.ptr none)
   | .ptr t, v => (fromCty t v).map fun g => .ptr (some g)
   | _, _ => none
 def fromCtyList : GTy → List Val → Option (List GVal)
@@ -189,6 +193,7 @@ def encodeFields : List Field → List FVal → Option (List (String × Val) × 
     | some (as, bs) =>
       match ty, v with
       | .ptr _, .ptr none => some (as, bs)                 -- nil pointer: no attribute
+      | .ptr (.ptr _), .ptr (some (.ptr none)) => some (as, bs)   -- dereferenced once, still a nil pointer: skipped
       | .ptr t, .ptr (some x) => (toCty t x).map fun c => ((name, c) :: as, bs)
       | _, _ => (toCty ty v).map fun c => ((name, c) :: as, bs)
   | .label _ :: fs, .label _ :: vs => encodeFields fs vs
@@ -327,7 +332,7 @@ mutual
     `toCty` handles nil at any depth -/
 def hasTy : GTy → GVal → Bool
   | .str, .str _ => true
-  | .int, .int _ => true
+  | .int, .int n => decide (-9223372036854775808 ≤ n ∧ n ≤ 9223372036854775807)     -- Go `int` (int64)
   | .bool, .bool _ => true
   | .slice _, .slice none => true
   | .slice t, .slice (some xs) => hasTyList t xs
@@ -349,9 +354,12 @@ def sortedKeys : List String → Bool
 end
 
 mutual
-/-- No pointer below the top of an attribute type (gocty loses the difference between a nil pointer and a nil
-    collection, and between a pointer and its target, inside collections: `[]*int` with a nil element comes
-    back as an error) -/
+/-- No pointer below the top of an attribute type.  gocty maps a nil pointer and a nil collection to the same
+    null value, so a pointer to a collection inside a collection does not round-trip (`[]*[]string{nil}` comes
+    back as a pointer to a nil slice), and neither does a pointer to a nil pointer at the top (`**T`: the
+    encoder skips the attribute, the decoder leaves the outer pointer nil).  Pointers to scalars inside
+    collections do round-trip (`[]*int` with a nil element: `[null, 3]` and back); they are left out of the
+    theorems only to keep this condition simple. -/
 def noInnerPtr : GTy → Bool
   | .slice t => noPtr t
   | .map t => noPtr t
